@@ -532,6 +532,9 @@ func (w *w7World) step(rep *w7Replica, drain bool) (fin bool, changed bool, err 
 				w.skipped[w7Key{e.EventType, e.Id}] = true
 				w.r.Probe("compact_journal_kept_older_version_of_equal_content")
 			}
+			if e.EventType == format.MetricEvent && e.Name == format.StatshouseJournalDump {
+				break // the update step drops what follows a dump event and asks for it again
+			}
 		}
 	}
 	changed = before != after
